@@ -3,6 +3,8 @@ use crate::runner::Check;
 
 pub mod c01;
 pub mod c02;
+pub mod c03;
+pub mod c04;
 
 #[derive(Clone, Copy, PartialEq, Eq, Debug)]
 pub enum Tier {
@@ -24,6 +26,8 @@ pub fn checks(id: &str, tier: Tier) -> Option<Vec<Check>> {
     match id {
         "C01" => Some(c01::checks(tier)),
         "C02" => Some(c02::checks(tier)),
+        "C03" => Some(c03::checks(tier)),
+        "C04" => Some(c04::checks(tier)),
         _ => None,
     }
 }
